@@ -14,12 +14,23 @@ Ops (after the property id):
   keep <site> <Fs> <N> <lb> <ub|none>  indices of the bins `filtered_fourier` keeps (DC excluded)
   true1 / true2 / trueshift / truefreqz <Fs> <N>   the grids the property asks for
   sites                                names of all generated sites
+  hist <events> <op …>                 read history of ONE analyzer whose frequency attribute is the vector of `<op …>`
+                                       (any op above): `F` read the frequencies (keep the object), `O` read another
+                                       result, `D` read another result whose getter reads the frequencies, `R` reset();
+                                       answer: the content, at the END, of every vector handed out, `;`-separated
+  two <N> <ev> …                       several live analyzers (`Nitime.C05.Two`): `u` the caller creates a method dict
+                                       (no 'Fs'), `n<C|P|E|S>:<rate>:<dict id|->` construct a Coherence / sParse /
+                                       sEed / Spectral analyzer on an input of that rate with the caller's dict or
+                                       method=None, `f<k>` analyzer k `.frequencies` (Spectral: `.psd[0]`), `c<k>`
+                                       `.cpsd[0]`; answer: the vector each read returned, `;`-separated
 `<Fs>`, `<lb>`, `<ub>`: `x<16 hex>` (a double, taken exactly) or `p/q`.
 -/
 import Nitime.Model.Proto
 import Nitime.Model.F64
 import Nitime.Model.C05Grid
+import Nitime.Model.C05Hist
 import Nitime.Generated.Grids
+import Nitime.Generated.Methods
 
 namespace Nitime.C05
 open Nitime.Proto
@@ -38,7 +49,7 @@ def lookup (site : String) : Option GridExpr := (Nitime.Generated.Grids.sites.lo
 def parseUb? (s : String) : Option (Option Rat) :=
   if s = "none" then some none else (parseQ? s).map some
 
-def handle (args : List String) : String :=
+def handleVec (args : List String) : String :=
   match args with
   | ["grid", site, fs, n] =>
     match lookup site, parseQ? fs, n.toNat? with
@@ -94,5 +105,65 @@ def handle (args : List String) : String :=
     | _, _ => "bad-args"
   | ["sites"] => joinList (Nitime.Generated.Grids.sites.map (·.1))
   | _ => "bad-op"
+
+/-- the vector ops again, as values (for the history machines) -/
+def vecOf (args : List String) : Option (List Rat) :=
+  let r := handleVec args
+  if r = "-" then some [] else
+  (splitList r).mapM parseRat?
+
+def parseHistEv (g : List Rat) : Char → Option Hist.Ev
+  | 'F' => some .readFreq
+  | 'O' => some (.readOther false (g.map (· * 2)))
+  | 'D' => some (.readOther true (g.map (· * 2)))
+  | 'R' => some .reset
+  | _ => none
+
+def showViews (vs : List (List Rat)) : String :=
+  if vs.isEmpty then "none" else ";".intercalate (vs.map showRatList)
+
+/-- what class `c` computes at rate `fs` with `NFFT = n` and the default band (`lb=0`, `ub=None`):
+Sparse / Seed: the generated `get_freqs` term, sliced; Coherence (Welch) / Spectral psd, cpsd: mlab's grid -/
+def twoGrid (n : Nat) (c : Two.Cls) (fs : Rat) : List Rat :=
+  match c with
+  | .sparse => match lookup "SparseCoherenceAnalyzer_frequencies" with
+    | some g => sliceBand (eval g piApprox fs n) 0 none | none => []
+  | .seed => match lookup "SeedCoherenceAnalyzer_frequencies" with
+    | some g => sliceBand (eval g piApprox fs n) 0 none | none => []
+  | _ => trueOneSided fs n
+
+def parseCls? : String → Option Two.Cls
+  | "C" => some .coherence | "P" => some .sparse | "E" => some .seed | "S" => some .spectral | _ => none
+
+def parseTwoEv (t : String) : Option Two.Ev :=
+  if t = "u" then some (.userDict none) else
+  if t.startsWith "n" then
+    match (t.drop 1).toString.splitOn ":" with
+    | [c, r, d] =>
+      match parseCls? c, parseQ? r with
+      | some c, some r => if d = "-" then some (.new c r none) else d.toNat?.map fun i => .new c r (some i)
+      | _, _ => none
+    | _ => none
+  else if t.startsWith "f" then (t.drop 1).toString.toNat?.map .freq
+  else if t.startsWith "c" then (t.drop 1).toString.toNat?.map .cpsd
+  else none
+
+def handle (args : List String) : String :=
+  match args with
+  | "hist" :: evs :: rest =>
+    match vecOf rest with
+    | none => handleVec rest
+    | some g =>
+      match evs.toList.mapM (parseHistEv g) with
+      | none => "bad-args"
+      | some es => showViews (Hist.finalViews (Hist.run (Hist.init g) es))
+  | "two" :: n :: evs =>
+    match n.toNat?, evs.mapM parseTwoEv with
+    | some n, some es =>
+      if Nitime.Generated.Methods.recognised && [Two.Cls.coherence, .sparse, .seed, .spectral].all Nitime.Generated.Methods.freshDefault then
+        showViews ((Two.run Nitime.Generated.Methods.spec (twoGrid n) (2 * piApprox) Two.init es).out.map (·.2))
+      else "unsupported"
+    | _, _ => "bad-args"
+  | _ => handleVec args
 
 end Nitime.C05
